@@ -49,6 +49,7 @@ def main():
         cwd = out if re.search(r"(^|&&|;)\s*cd ", run) else wt
         def place():
             if demo_dst and demo_dst.endswith(".go") and len(demo_src) == 1:
+                os.makedirs(os.path.dirname(os.path.join(wt, demo_dst)), exist_ok=True)
                 shutil.copy(os.path.join(out, demo_src[0]), os.path.join(wt, demo_dst))
         wt_run = lambda: sh(run, cwd)
         sh("git checkout -q -- . && git clean -fdq", wt)
